@@ -10,7 +10,7 @@ from . import common
 
 ID = 'C12'
 LEVEL = 'exploration'
-RUNS = {'quick': 6000, 'thorough': 120000}
+RUNS = {'quick': 16000, 'thorough': 300000}
 CHUNK = 40
 PROBES = ['class_filter', 'subclass_filter', 'class_and_subclass', 'tid_filter', 'tid_and_class', 'empty_lists', 'tuple_filter',
           'filter_matches_nothing', 'log_listing', 'log_process_filter_by_name', 'log_process_filter_by_pid', 'log_tid_filter',
